@@ -10,17 +10,17 @@ import (
 	"os"
 	"runtime/debug"
 	"runtime/pprof"
-	"sort"
 	"strconv"
 	"strings"
-	"sync"
 
 	"github.com/safing/portbase/formats/dsd"
 
 	"verifharness/hxlib"
 )
 
-func jsonMarshalIndent(v any, indent string) ([]byte, error) { return json.MarshalIndent(v, "", indent) }
+func jsonMarshalIndent(v any, indent string) ([]byte, error) {
+	return json.MarshalIndent(v, "", indent)
+}
 
 var fmtName = map[uint8]string{dsd.AUTO: "AUTO", dsd.RAW: "RAW", dsd.CBOR: "CBOR", dsd.GenCode: "GenCode", dsd.JSON: "JSON",
 	dsd.MsgPack: "MsgPack", dsd.YAML: "YAML", dsd.GZIP: "GZIP", dsd.LIST: "LIST"}
@@ -128,8 +128,6 @@ type monState struct {
 	id  string
 	rep map[string]bool // lib -> value representable in that codec (the codec's own round trip works)
 }
-
-var repCache sync.Map
 
 func (m *monState) representable(lib string) bool {
 	if m.val == nil {
@@ -1006,11 +1004,11 @@ func generate(r *hxlib.Run, emit func(hxlib.Case)) {
 
 func extra(*hxlib.Run) map[string]any {
 	return map[string]any{
-		"codec_contract_samples":  contractSamples,
-		"codec_contract_failures": contractFailures,
+		"codec_contract_samples":                    contractSamples,
+		"codec_contract_failures":                   contractFailures,
 		"codec_contract_failures_by_codec_and_type": contractByLib,
-		"codec_contract_failure_examples": contractExample,
-		"codec_contract_note":     "dump lines whose value was sent through the third-party codec directly (marshal, unmarshal, equal): failures are values not representable in that format; the property makes no demand on them",
+		"codec_contract_failure_examples":           contractExample,
+		"codec_contract_note":                       "dump lines whose value was sent through the third-party codec directly (marshal, unmarshal, equal): failures are values not representable in that format; the property makes no demand on them",
 	}
 }
 
@@ -1018,8 +1016,6 @@ func disSig(line, impl, model string) string {
 	w := strings.SplitN(line, " ", 2)[0]
 	return "corr:" + w
 }
-
-var _ = sort.Strings
 
 func main() {
 	if p := os.Getenv("HX_CPUPROFILE"); p != "" {
@@ -1030,8 +1026,8 @@ func main() {
 	}
 	debug.SetGCPercent(400) // DumpAndCompress allocates a fresh BestCompression writer (> 1 MB) per call
 	hxlib.Main(&hxlib.Harness{
-		Prop: "C09",
-		Rule: "a case is one schema value (Subject: nested structs, all integer widths within ±(2^53-1), ASCII/non-ASCII/YAML-hostile strings, byte and string slices, maps, pointers, nil and empty; GSubject: gencode; []byte: RAW; USubject: unmarshalable) with the real codecs' results as fact lines, followed by (roundtrip) Dump/DumpIndent/DumpAndCompress for every format id in {AUTO,RAW,CBOR,GenCode,JSON,MsgPack,YAML} + one unsupported id x compression {AUTO,GZIP,unsupported} each followed by Load/LoadAsFormat/DecompressAndLoad, or (http) DumpToHTTPRequest→LoadFromHTTPRequest→DumpToHTTPResponse→LoadFromHTTPResponse for every format id and MimeDump/MimeLoad/DumpToHTTPResponse for Accept headers from a media-range grammar (types, supported/unsupported/wildcard subtypes, parameters, q-values, ASCII and Unicode whitespace, case incl. KELVIN SIGN, garbage), or (accept) FormatFromAccept on 16 such headers, or (malformed/totality) Load/DecompressAndLoad/LoadAsFormat/MimeLoad on truncations, bit flips, identifier rewrites, two-byte identifiers, gzip wrappers and random bytes. Non-trivial: every case except those on the unmarshalable type; accept cases only if a header has >= 2 elements or a parameter. Distinct by the hash of the op lines.",
+		Prop:     "C09",
+		Rule:     "a case is one schema value (Subject: nested structs, all integer widths within ±(2^53-1), ASCII/non-ASCII/YAML-hostile strings, byte and string slices, maps, pointers, nil and empty; GSubject: gencode; []byte: RAW; USubject: unmarshalable) with the real codecs' results as fact lines, followed by (roundtrip) Dump/DumpIndent/DumpAndCompress for every format id in {AUTO,RAW,CBOR,GenCode,JSON,MsgPack,YAML} + one unsupported id x compression {AUTO,GZIP,unsupported} each followed by Load/LoadAsFormat/DecompressAndLoad, or (http) DumpToHTTPRequest→LoadFromHTTPRequest→DumpToHTTPResponse→LoadFromHTTPResponse for every format id and MimeDump/MimeLoad/DumpToHTTPResponse for Accept headers from a media-range grammar (types, supported/unsupported/wildcard subtypes, parameters, q-values, ASCII and Unicode whitespace, case incl. KELVIN SIGN, garbage), or (http-wire) the same request/response cycle through a real httptest.Server connection, or (accept) FormatFromAccept on 16 such headers, or (malformed/totality) Load/DecompressAndLoad/LoadAsFormat/MimeLoad on truncations, bit flips, identifier rewrites, two-byte identifiers, gzip wrappers and random bytes. Non-trivial: every case except those on the unmarshalable type; accept cases only if a header has >= 2 elements or a parameter. Distinct by the hash of the op lines.",
 		Generate: generate,
 		NewExec:  newExec,
 		Monitor:  monitor,
